@@ -19,7 +19,7 @@ def hdr_field(f, base=ANY):
 
 
 # the header pointer is `*header` (LHAFileHeader **) in the level decoders
-HP = ("load", ("param", 0))
+HP = ("or", ("load", ("param", 0)), ("param", 0))      # `*header` for LHAFileHeader ** parameters, `header` for LHAFileHeader *
 RAW = ("load", ("field", HDR, "raw_data", HP))
 RAWLEN = ("load", ("field", HDR, "raw_data_len", HP))
 
@@ -32,70 +32,90 @@ COMMON_CRC_FLAG = 0x04   # LHA_FILE_COMMON_CRC, reference value (DESIGN Appendix
 MiB = 1024 * 1024
 
 
-def check_fold(rep, ctx, mod):
-    """R1b: check_l0_checksum is a byte fold: sum of header[0..len) masked to 8 bits == csum."""
-    rid = rep.rule("R1b", "check_l0_checksum sums every byte of its buffer, masks to 8 bits and compares with the checksum argument")
-    fn = rep.need(rid, mod.fn("check_l0_checksum"), "function check_l0_checksum")
-    if fn is None:
+def check_fold(rep, ctx, mod, l0):
+    """R1/R1b/R1c on the level-0/1 decoder with the checksum helper folded in (the normalised view inlines it, so the rule is the same
+    whether the sum lives in a helper, takes the header or a (pointer, length) pair, or is written in place):
+    every successful return carries `(S & 0xff) == raw_data[1]` where S is the exit value of a loop that starts at 0, adds raw_data[2 + i]
+    for i = 0, 1, 2, ... and is left exactly when i reaches raw_data_len - 2, the bytes being read after the full header was read."""
+    from ..lin import Lin, linform, ptr_form
+    rid = rep.rule("R1", "decode_level0_header returns success only if ((sum of raw_data[2 .. raw_data_len)) & 0xff) == raw_data[1]", 1)
+    rid_b = rep.rule("R1b", "the checksum is a fold: starts at 0, adds every byte raw_data[2 + i], i = 0, 1, 2, ..., and stops exactly at i == raw_data_len - 2")
+    rid_c = rep.rule("R1c", "the checksum is computed after the full header (header_len + 2 bytes) has been read")
+    F, M = ctx.facts(l0), Matcher(l0)
+    ses = success_edges(F, l0)
+    if not ses:
+        rep.broken(rid, "decode_level0_header has no successful return")
         return
-    M = Matcher(fn)
-    r = rets(fn)
-    if len(r) != 1:
-        rep.violation(rid, "single return", fn.file, "unexpected shape", function=fn.cname, obj="ret")
-        return
-    v = M.strip(r[0].ops[0], ("zext", "sext"))
-    d = fn.defn(v)
-    ok = False
-    detail = "return value is not a comparison"
-    if d is not None and not d.is_param and d.op == "icmp" and d.pred == "eq":
-        for a, b in ((d.ops[0], d.ops[1]), (d.ops[1], d.ops[0])):
-            # a: masked accumulator, b: the csum parameter (possibly masked to 8 bits / cast)
-            e = M.match(("or", ("bin", "and", ("bind", "acc"), 255), ("cast", "zext", ("cast", "trunc", ("bind", "acc")))), a, {})
-            if e is None:
+    checked = set()
+    for v, pb, b in ses:
+        fs = facts_for_success(F, l0, v, pb, b)
+        where = "%s:%s" % (l0.file, l0.blocks[pb if pb is not None else b].term.line())
+        found = None
+        for f in fs:
+            if f[0] != "eq" or is_const(f[1]) or is_const(f[2]):
                 continue
-            wb, ob = min_width_through_casts(fn, b)
-            eb = M.match(("or", ("param", 2), ("bin", "and", ("param", 2), 255)), b, {})
-            if eb is None or (wb is not None and wb < 8):
-                detail = "masked sum is not compared with the checksum parameter"
-                continue
-            acc = fn.defn(e["acc"])
-            if acc is None or acc.is_param or acc.op != "phi":
-                detail = "accumulator is not a loop-carried value"
-                continue
-            # acc = phi [0, entry] [acc + zext(load header[i]), latch]
+            for x, y in ((f[1], f[2]), (f[2], f[1])):
+                e = M.match(("or", ("bin", "and", ("bind", "acc"), 255), ("cast", "zext", ("cast", "trunc", ("bind", "acc")))), x, {})
+                wy, oy = min_width_through_casts(l0, y)
+                if e is not None and M.match(raw_at(1), oy, {}) is not None and (wy is None or wy >= 8):
+                    found = (f, e["acc"])
+        rep.check(rid, found is not None, "decode_level0_header: return via bb%s carries (sum & 0xff) == raw_data[1]" % (pb if pb is not None else b), where,
+                  describe_fact(l0, found[0]) if found else "a path returns success without the checksum comparison; facts there: %s" % sorted(describe_fact(l0, x) for x in fs)[:10],
+                  function=l0.cname, obj="checksum")
+        if not found or found[1] in checked:
+            continue
+        checked.add(found[1])
+        acc = l0.defn(found[1])
+        ok, detail = False, "accumulator is not a loop-carried value"
+        if acc is not None and not acc.is_param and acc.op == "phi":
             inits = [iv for iv, _ in acc.incoming if is_const(iv)]
             steps = [iv for iv, _ in acc.incoming if not is_const(iv)]
-            if [const_val(x) for x in inits] != [0] or len(steps) != 1:
-                detail = "accumulator does not start at 0 / has several updates"
-                continue
-            es = M.match(("bin", "add", ("inst", acc.id), ("load", ("gep", ("param", 0), [("bind", "i")]))), steps[0], {})
-            if es is None:
-                detail = "accumulator update is not acc + header[i]"
-                continue
-            iv = fn.defn(es["i"])
-            if iv is None or iv.is_param or iv.op != "phi":
-                detail = "index is not a loop counter"
-                continue
-            i_inits = [x for x, _ in iv.incoming if is_const(x)]
-            i_steps = [x for x, _ in iv.incoming if not is_const(x)]
-            if [const_val(x) for x in i_inits] != [0] or len(i_steps) != 1 or \
-               M.match(("bin", "add", ("inst", iv.id), 1), i_steps[0], {}) is None:
-                detail = "index does not run 0,1,2,..."
-                continue
-            # the load executes under i < header_len and the loop is left only when i >= header_len
-            F = ctx.facts(fn)
-            ld = None
-            for ins in fn.insts():
-                if ins.op == "load" and M.match(("load", ("gep", ("param", 0), [("inst", iv.id)])), ("v", ins.id), {}) is not None:
-                    ld = ins
-            f1, _ = M.find_fact(("ult", ("inst", iv.id), ("param", 1)), F.at_inst(ld)) if ld else (None, None)
-            f2, _ = M.find_fact(("uge", ("inst", iv.id), ("param", 1)), F.at_inst(r[0]))
-            if f1 is None or f2 is None:
-                detail = "loop bounds are not 'i < header_len' / exit at 'i >= header_len'"
-                continue
-            ok = True
-            detail = "ret = ((sum header[i], i in [0,len)) & 0xff) == csum"
-    rep.check(rid, ok, "check_l0_checksum fold shape", "%s:%s" % (fn.file, fn.line), detail, function=fn.cname, obj="fold")
+            lp = next((l for l in l0.loops() if l["header"] == acc.block.id), None)
+            if [const_val(x) for x in inits] != [0] or len(steps) != 1 or lp is None:
+                detail = "accumulator does not start at 0 / has several updates / is not at a loop head"
+            else:
+                es = M.match(("bin", "add", ("inst", acc.id), ("bind", "byte", ("load", ANY))), steps[0], {}) or M.match(("bin", "add", ("bind", "byte", ("load", ANY)), ("inst", acc.id)), steps[0], {})
+                ld = l0.defn(es["byte"]) if es else None
+                ivs = [p_ for p_ in l0.blocks[lp["header"]].insts if p_.op == "phi" and p_.id != acc.id]
+                if ld is None or ld.size != 1:
+                    detail = "accumulator update is not acc + <one byte>"
+                else:
+                    def symf(o):
+                        so = M.strip(o)
+                        for p_ in ivs:
+                            if so == ("v", p_.id):
+                                return "i%d" % p_.id
+                        if M.match(RAWLEN, o, {}) is not None:
+                            return "rawlen"
+                        return None
+                    pf = ptr_form(l0, ld.ops[0], lambda o: "raw" if M.match(RAW, o, {}) is not None else None, symf)
+                    idx = [k for k in (pf[1].t if pf else {}) if k.startswith("i")]
+                    if pf is None or len(idx) != 1 or pf[1].t[idx[0]] != 1 or pf[1].c != 2 or set(pf[1].t) != set(idx):
+                        detail = "the byte added is not raw_data[2 + i] (address form %s)" % (pf[1] if pf else None)
+                    else:
+                        iv = next(p_ for p_ in ivs if "i%d" % p_.id == idx[0])
+                        i_in = [x for x, pb_ in iv.incoming if pb_ not in lp["body"]]
+                        i_bk = [x for x, pb_ in iv.incoming if pb_ in lp["body"]]
+                        if not (len(i_in) == 1 and is_const(i_in[0]) and const_val(i_in[0]) == 0 and i_bk and all(M.match(("bin", "add", ("inst", iv.id), 1), x, {}) is not None for x in i_bk)):
+                            detail = "index does not run 0, 1, 2, ..."
+                        else:
+                            # exit exactly at i >= rawlen - 2, byte read under i < rawlen - 2
+                            def bound_ok(fct, pred):
+                                if fct[0] != pred:
+                                    return False
+                                lx, ly = linform(l0, fct[1], symf), linform(l0, fct[2], symf)
+                                return lx is not None and ly is not None and lx.add(ly, -1) == Lin(2, {idx[0]: 1, "rawlen": -1})
+                            exits_ok = len(lp["exits"]) >= 1 and all(any(bound_ok(fct, "uge") for fct in F.edge_facts(b_, s_)) for (b_, s_) in lp["exits"])
+                            read_ok = any(bound_ok(fct, "ult") for fct in F.at_inst(ld))
+                            if not exits_ok or not read_ok:
+                                detail = "loop bounds are not 'i < raw_data_len - 2' at the read / exit at 'i >= raw_data_len - 2'"
+                            else:
+                                ok, detail = True, "sum = fold of raw_data[2 + i], i in [0, raw_data_len - 2), masked to 8 bits, compared with raw_data[1]"
+                                # R1c: the bytes are read after the extension succeeded
+                                guarded_site(rep, rid_c, ctx, ld, [
+                                    ("extend_raw_data(header, stream, header_len + 2 - raw_data_len) != NULL",
+                                     ("ne", ("call", "extend_raw_data", [("param", 0), ("param", 1), ("bin", "sub", ("bin", "add", raw_at(0), 2), RAWLEN)]), 0))])
+        rep.check(rid_b, ok, "checksum fold shape", "%s:%s" % (l0.file, l0.line), detail, function=l0.cname, obj="fold")
 
 
 def presence_rules(rep, ctx, mod, cg, prefix=""):
@@ -168,22 +188,9 @@ def run(tier, seed):
         cg = CallGraph(mod)
 
         # ---- R1: level-0/1 checksum ------------------------------------------
-        rid = rep.rule("R1", "decode_level0_header returns success only if check_l0_checksum(raw+2, raw_len-2, raw[1]) != 0", 1)
-        l0 = rep.need(rid, mod.fn("decode_level0_header"), "function decode_level0_header")
+        l0 = rep.need(rep.rule("R1", "decode_level0_header returns success only if ((sum of raw_data[2 .. raw_data_len)) & 0xff) == raw_data[1]", 1), mod.fn("decode_level0_header"), "function decode_level0_header")
         if l0:
-            require_on_success(rep, rid, ctx, l0, [
-                ("check_l0_checksum(raw_data+2, raw_data_len-2, raw_data[1]) != 0",
-                 ("ne", ("call", "check_l0_checksum", [("gep", RAW, [2]), ("bin", "sub", RAWLEN, 2), raw_at(1)]), 0)),
-            ])
-            # the checksum call must come after the header was completely read: the
-            # extension call dominates it (fact at the call site)
-            rid2 = rep.rule("R1c", "the checksum is computed after the full header (header_len + 2 bytes) has been read")
-            for c in l0.calls("check_l0_checksum"):
-                guarded_site(rep, rid2, ctx, c, [
-                    ("extend_raw_data(header, stream, header_len + 2 - raw_data_len) != NULL",
-                     ("ne", ("call", "extend_raw_data", [("param", 0), ("param", 1),
-                                                          ("bin", "sub", ("bin", "add", raw_at(0), 2), RAWLEN)]), 0))])
-        check_fold(rep, ctx, mod)
+            check_fold(rep, ctx, mod, l0)
 
         # ---- R2: common CRC ---------------------------------------------------
         rid = rep.rule("R2", "lha_file_header_read returns a header only across '(extra_flags & COMMON_CRC) == 0' or 'CRC-16 accumulator == header->common_crc'")
@@ -403,7 +410,7 @@ def run(tier, seed):
             require_on_success(rep, rid, ctx, l1, [
                 ("decode_level0_header != 0", ("ne", ("call", "decode_level0_header", [("param", 0), ("param", 1)]), 0)),
                 ("read_l1_extended_headers != 0", ("ne", ("call", "read_l1_extended_headers", [("param", 0), ("param", 1)]), 0)),
-                ("decode_extended_headers(header, raw_len_before - 2) != 0", ("ne", ("call", "decode_extended_headers", [("param", 0), ("bin", "sub", RAWLEN, 2)]), 0)),
+                ("decode_extended_headers(header, raw_len_before - 2) != 0", ("ne", ("call", "decode_extended_headers", [("or", ("param", 0), ("load", ("param", 0))), ("bin", "sub", RAWLEN, 2)]), 0)),
             ])
         rid = rep.rule("R4c", "level 2: success only with header_len >= 26, full read, extended-header chain from offset 24 accepted", 3)
         l2 = rep.need(rid, mod.fn("decode_level2_header"), "function decode_level2_header")
@@ -413,7 +420,7 @@ def run(tier, seed):
                 ("header_len >= 26", ("uge", hl, 26)),
                 ("extend_raw_data(header, stream, header_len - raw_data_len) != NULL",
                  ("ne", ("call", "extend_raw_data", [("param", 0), ("param", 1), ("bin", "sub", hl, RAWLEN)]), 0)),
-                ("decode_extended_headers(header, 24) != 0", ("ne", ("call", "decode_extended_headers", [("param", 0), 24]), 0)),
+                ("decode_extended_headers(header, 24) != 0", ("ne", ("call", "decode_extended_headers", [("or", ("param", 0), ("load", ("param", 0))), 24]), 0)),
             ])
         rid = rep.rule("R4d", "level 3: success only with word size 4, base read to 32, header_len <= 1 MiB and >= bytes held, full read, chain from offset 28 accepted", 6)
         l3 = rep.need(rid, mod.fn("decode_level3_header"), "function decode_level3_header")
@@ -427,7 +434,7 @@ def run(tier, seed):
                 ("header_len >= raw_data_len", ("uge", hl, RAWLEN)),
                 ("extend_raw_data(header, stream, header_len - raw_data_len) != NULL",
                  ("ne", ("call", "extend_raw_data", [("param", 0), ("param", 1), ("bin", "sub", hl, RAWLEN)]), 0)),
-                ("decode_extended_headers(header, 28) != 0", ("ne", ("call", "decode_extended_headers", [("param", 0), 28]), 0)),
+                ("decode_extended_headers(header, 28) != 0", ("ne", ("call", "decode_extended_headers", [("or", ("param", 0), ("load", ("param", 0))), 28]), 0)),
             ])
         rid = rep.rule("R4e", "chain walker: an extended header is decoded only if field_size + 1 <= ext_len <= bytes available", 2)
         de = rep.need(rid, mod.fn("decode_extended_headers"), "function decode_extended_headers")
